@@ -9,16 +9,17 @@ use crate::tables;
 
 pub fn run(cx: &mut Ctx) {
     if let Some(facts) = units::load_facts(cx, "C08.B1") {
-        units::position_inventories(cx, "C08.B1", &facts, false);
+        units::position_comparisons(cx, "C08.B1", &facts);
     }
     token_payloads(cx);
     paren_transparency(cx);
     lr::skip_set(cx, "C08.W1");
     lr::indentation_counters(cx, "C08.W2");
-    lr::byte_accounting(cx, "C08.N1");
+    lr::byte_accounting_mode(cx, "C08.N1", lr::Acct::Folding);
     lr::newline_guards(cx, "C08.I2");
     lr::indent_pairing(cx, "C08.I1");
     crate::rules::c01::soft_keywords_pub(cx, "C08.S1");
+    crate::rules::c10::kind_set_agreement_pub(cx, "C08.S2");
     line_ending_in_strings(cx);
 }
 
